@@ -1,0 +1,7 @@
+//go:build !verif
+// +build !verif
+
+package rawmessagesfilter
+
+// verifRecovered is a no-op unless built with the "verif" tag (see verif_hooks.go).
+func verifRecovered(f *RawMessageFilter, r interface{}) {}
